@@ -1,3 +1,5 @@
 -- Root of the `GitBugModel` library: model, generated facts, property theorems.
 import GitBugModel.Model.Conn
 import GitBugModel.Props.C20
+import GitBugModel.Model.Ids
+import GitBugModel.Props.C13
